@@ -110,22 +110,30 @@ def moduleSize (rd : Reader) (width left top : Int) : Res Int := do
     let moduleSize := x - left
     if moduleSize = 0 then .error .notFound else return moduleSize
 
+/-- the statements `top := leftTopBlack[1]` … `matrixHeight := (bottom - top + 1) / moduleSize`
+    (tied to /repo by the regenerated kernel `Gen.KDetrest.dmPureDims`): (top, bottom, left, right, matrixWidth, matrixHeight) -/
+def dims (lt rb : Int × Int) (ms : Int) : Res (Int × Int × Int × Int × Int × Int) := do
+  let top := lt.2
+  let bottom := rb.2
+  let left := lt.1
+  let right := rb.1
+  let matrixWidth ← goDiv (right - left + 1) ms
+  let matrixHeight ← goDiv (bottom - top + 1) ms
+  return (top, bottom, left, right, matrixWidth, matrixHeight)
+
+/-- `nudge := moduleSize / 2; top += nudge; left += nudge` (kernel `Gen.KDetrest.dmPureNudge`): (nudge, top, left) -/
+def nudged (ms top left : Int) : Int × Int × Int :=
+  (Int.tdiv ms 2, top + Int.tdiv ms 2, left + Int.tdiv ms 2)
+
 /-- `extractPureBits(image)` -/
 def extractPureBits (rd : Reader) (img : Img) : Res Bits :=
   match topLeft img, bottomRight img with
   | some lt, some rb => do
     let ms ← moduleSize rd img.w lt.1 lt.2
-    let top := lt.2
-    let bottom := rb.2
-    let left := lt.1
-    let right := rb.1
-    let matrixWidth ← goDiv (right - left + 1) ms
-    let matrixHeight ← goDiv (bottom - top + 1) ms
+    let (top, _, left, _, matrixWidth, matrixHeight) ← dims lt rb ms
     if matrixWidth ≤ 0 ∨ matrixHeight ≤ 0 then .error .notFound
     else
-      let nudge ← goDiv ms 2
-      let top := top + nudge
-      let left := left + nudge
+      let (_, top, left) := nudged ms top left
       readOff rd matrixWidth matrixHeight (fun x => left + x * ms) (fun y => top + y * ms)
   | _, _ => .error .notFound
 
